@@ -620,8 +620,8 @@ def analyse(tree, att, det, src=b""):
                 d2 = depth + (1 if k2 in INDENTING else 0)
                 has_nl = walk(t["ch"], k2, d2, t["id"])
                 # the printer wraps these in a dom group that breaks when it holds a newline (the
-                # leading trivia of the open bracket is inside it) or is wider than 100 columns
-                if k2 in ("copts", "sig") and (has_nl or nl_before or col(end_of.get(t["id"], 0)) > 90):
+                # leading trivia of the open bracket is inside it) or is too wide (the layout pass over-estimates columns; 60 is a safe bound)
+                if k2 in ("copts", "sig") and (has_nl or nl_before or col(end_of.get(t["id"], 0)) > 60):
                     F.add("roundtrip-inserts-line-break-before-closing-bracket")
                 dd = D.get(t["id"], {"slots": []})
                 slots = dd["slots"] or []
@@ -673,3 +673,100 @@ def eof_features(src, tree):
     if tail and (tail == b" " * len(tail) or (tail == b"\n" * len(tail) and len(tail) >= 2)):
         F.add("roundtrip-normalizes-whitespace-at-eof")
     return F
+
+
+# ------------------------------------------------------------------ C31: what format mode may change
+def solid_erased(tree):
+    """[(offset, text)] of the non-skippable tokens in stream order, with the changes format mode makes
+    on purpose erased: separators and colons of message literals, angle brackets of message literals
+    spelled as braces, empty declarations inside bodies."""
+    out = []
+    off = [0]
+
+    def walk(ts, kind):
+        prev = prev2 = None
+        prev_kind = None
+        for t in ts:
+            start = off[0]
+            off[0] += len(_txt(t))
+            if t["c"] <= 4:
+                continue
+            tx = _txt(t)
+            if t["c"] >= 9:
+                k2 = scope_kind(t, kind, prev, prev2)
+                ot, ct = tx, bytes.fromhex(t["ct"])
+                if k2 == "dict" and t["c"] == 12:
+                    ot, ct = b"{", b"}"
+                out.append((start, ot))
+                walk(t["ch"], k2)
+                out.append((off[0], ct))
+                off[0] += len(bytes.fromhex(t["ct"]))
+                prev2, prev, prev_kind = prev, t, k2
+                continue
+            drop = False
+            if kind == "dict" and (t["c"] in (5, 6) or tx == b":"):
+                drop = True
+            if kind == "body" and t["c"] == 5 and (prev is None or prev["c"] == 5 or (prev["c"] >= 9 and prev_kind == "body")):
+                drop = True
+            if not drop:
+                out.append((start, tx))
+            prev2, prev, prev_kind = prev, t, None
+    walk(tree or [], "file")
+    return out
+
+
+def comment_features(tree):
+    """where comments sit relative to the declarations (classes of the C31 known findings)"""
+    F = set()
+
+    def walk(ts, kind):
+        prev = prev2 = None
+        prev_kind = None
+        run = []
+        for t in list(ts) + [None]:
+            if t is not None and t["c"] <= 4:
+                run.append(t)
+                continue
+            has_lc = any(x["c"] == 2 for x in run)
+            has_bc = any(x["c"] == 3 for x in run)
+            if has_lc or has_bc:
+                boundary_prev = prev is None or prev["c"] == 5 or (prev["c"] == 11 and prev_kind == "body")
+                first_c = next(i for i, x in enumerate(run) if x["c"] in (2, 3))
+                nl_before = any(x["c"] == 1 for x in run[:first_c])
+                last_c = max(i for i, x in enumerate(run) if x["c"] in (2, 3))
+                nl_after = any(x["c"] == 1 for x in run[last_c + 1:])
+                if kind in ("file", "body") and boundary_prev:
+                    if prev is None and kind == "body" and not nl_before:
+                        pos = "same-line"
+                    elif nl_before or prev is None:
+                        pos = "own-line" if (nl_after or t is None) else "same-line"
+                    else:
+                        pos = "trailing" if (nl_after or t is None) else "same-line"
+                else:
+                    pos = "inside"
+                F.add(("LC:" if has_lc else "BC:") + pos)
+                if has_lc and has_bc:
+                    F.add("BC:" + pos)
+            run = []
+            if t is not None:
+                k2 = None
+                if t["c"] >= 9:
+                    k2 = scope_kind(t, kind, prev, prev2)
+                    walk(t["ch"], k2)
+                prev2, prev, prev_kind = prev, t, k2
+    walk(tree or [], "file")
+    return F
+
+
+def layout_class(tree, stratum):
+    """the syntactic class a C31 failure is attributed to (first match)"""
+    F = comment_features(tree)
+    if "LC:inside" in F:
+        return "line-comment-inside-declaration"
+    if "BC:inside" in F:
+        return "block-comment-inside-declaration"
+    if "LC:same-line" in F or "BC:same-line" in F:
+        return "comment-on-same-line-as-next-declaration"
+    if stratum.startswith("plain") or stratum == "shuffled-plain":
+        return "plain-layout"
+    return "irregular-whitespace"
